@@ -155,6 +155,29 @@ def corrupt(rng, group, target_idx):
     return "none", g, None
 
 
+def targeted(rng, group):
+    """corruptions that need a particular record: applied to every generated group that has such a record"""
+    out = []
+    for ti in range(len(group)):
+        for bi in range(ti + 1):
+            b = group[bi]
+            for li, l in enumerate(b["lines"]):
+                if l["u"] and l["size"] > 0:
+                    for delta, label in ((3, "unique record's size raised"), (-1, "unique record's size lowered")):
+                        g = copy.deepcopy(group)
+                        g[bi]["lines"][li]["size"] = l["size"] + delta
+                        out.append((label, g, group[ti]["name"]))
+                    break
+            for li, l in enumerate(b["lines"]):
+                if not l["u"] and l["size"] > 0:
+                    g = copy.deepcopy(group)
+                    g[bi]["lines"][li]["size"] = l["size"] + 2
+                    out.append(("extern record's size raised", g, group[ti]["name"]))
+                    break
+    rng.shuffle(out)
+    return out[:3]
+
+
 def wire_meta(m):
     return [m[0], m[1], m[2], sexp.Z(m[3])]
 
@@ -312,6 +335,8 @@ def run(ctx):
         g = gen_group(rng)
         for ti, b in enumerate(g):
             cases.append({"label": "valid", "group": g, "target": b["name"], "fileop": None})
+        for label, g2, tname in targeted(rng, g):
+            cases.append({"label": label, "group": g2, "target": tname, "fileop": None})
         for _ in range(6 if thorough else 4):
             ti = rng.randrange(len(g))
             label, g2, fileop = corrupt(rng, g, ti)
